@@ -1187,6 +1187,8 @@ class Exec(object):
                 return VStr(str_repeat_fn()(tostr(sv), toint(nv)))
             if isinstance(a, (VList, list)) and isinstance(b, (VInt, int)):
                 a = self.iter_list(a, st, node)
+                if a.conc is not None and isinstance(b, int) and not isinstance(b, bool):
+                    return VList.from_py(list(a.conc) * b)
                 if a.conc is not None and len(a.conc) == 1:
                     x = a.conc[0]
                     n = toint(b)
@@ -1401,9 +1403,45 @@ class Exec(object):
             if "self.name = name" not in src or src.count("self.") != 1:
                 raise Unsupported("Transition.__init__ is no longer `self.name = name`")
             return VRec(q, {"name": args[0]})
-        if q == "trees.trees.Tree":
-            raise Unsupported("Tree allocation (handled by contracts of allocating helpers)")
+        if q == "trees.trees.Tree" and len(args) == 1:
+            return self.alloc_tree(args[0], st, node)
         raise Unsupported("class %s" % q)
+
+    def alloc_tree(self, data, st, node):
+        """Tree(data): a fresh node (not allocated before, not None) with no parent, no children and a copy of
+        `data` (a dict literal built in the function, or the .data of another node)"""
+        init = self.repo.fns.get("trees.trees.Tree.__init__")
+        src = init.src if init is not None else ""
+        for needle in ("self.children = []", "self.parent = None", "self.data = deepcopy(data)"):
+            if needle not in src:
+                raise Unsupported("Tree.__init__ no longer contains `%s`" % needle)
+        H = st.heap
+        r = z3.Int(fresh_name("new"))
+        st.assume(z3.And(r != 0, z3.Not(z3.Select(H.f["alive"], r))))
+        H.f["alive"] = z3.Store(H.f["alive"], r, True)
+        H.f["parent"] = z3.Store(H.f["parent"], r, 0)
+        H.f["nchild"] = z3.Store(H.f["nchild"], r, 0)
+        ref = VRef(r)
+        if isinstance(data, VRec) and data.cls == "dict":
+            for k in DATA_KEYS:
+                if k in data.fields:
+                    if DATA_KEYS[k] == "any":
+                        H.f["has_" + k] = z3.Store(H.f["has_" + k], r, True)
+                        continue
+                    H.set_data(ref, k, lift(data.fields[k]) if data.fields[k] is not None else VNone)
+                else:
+                    H.f["has_" + k] = z3.Store(H.f["has_" + k], r, False)
+            for k in data.fields:
+                if k not in DATA_KEYS:
+                    raise Unsupported("Tree(data) with unmodelled key %r" % k)
+        elif isinstance(data, tuple) and data and data[0] == "data":
+            src_ref = data[1]
+            for name in list(H.f):
+                if name.startswith(("has_", "val_", "none_")):
+                    H.f[name] = z3.Store(H.f[name], r, z3.Select(H.f[name], src_ref.t))
+        else:
+            raise Unsupported("Tree(%r)" % (data,))
+        return ref
 
     def call_fn(self, q, args, kw, st, node):
         c = self.reg.get(q)
